@@ -17,7 +17,7 @@ def _wrap_hom(hom, *args, **kwargs):
         return wrapped_hom
 
     def wrapped_hom(mat, inv=None):
-        return hom(mat, *args)
+        return hom(mat, *args, **kwargs)
     return wrapped_hom
 
 def sl2_irrep(n, **kwargs):
